@@ -301,6 +301,10 @@ func exploreUnit(c *core.Ctx, desc []string, bound int, spread bool) {
 	} else if !c.Mine() {
 		return
 	}
+	if !qr.VerifInternals && (desc[0] == "S3a" || desc[0] == "S3b" || desc[0] == "S3c") {
+		c.R.NotDone("harnesses %s need the seams into private functions of package qr, which do not compile against the current sources (stub in use); the whole-call harnesses S3d/S3e cover the same pipelines from outside", desc[0])
+		return
+	}
 	h, err := schedHarness(desc)
 	if err != nil {
 		c.Fail("C16", &core.Case{Fam: "sched", Ops: desc}, "cannot build harness: %v", err)
